@@ -3,7 +3,13 @@
    acceptDecisionVersion1, switchToBanana, negotiationFailed), broker.py (shutdown/finish/connectionLost),
    pb.py (getBrokerForTubRef, brokerAttached, brokerDetached, connectionFailed) and connection.py
    (TubConnector: connect, connectorNegotiationComplete/Failed, checkForFailure, connectionTimedOut).
-   The decision `compare_offer` is the TRANSLATED compareOfferAndExisting (gen/ConvergeGen.v).
+   The decision `compare_offer` is the TRANSLATED compareOfferAndExisting (gen/ConvergeGen.v), called with the
+   master's handle-old-duplicate-connections setting and the age of its existing Broker.
+   Virtual time: `now`; every TubConnector has a deadline (CONNECTION_TIMEOUT after connect()), the listening end of
+   every connection has its own negotiation timer (SERVER_TIMEOUT after connectionMade); `Advance dt` lets time pass
+   up to the next armed timer and fires what is due.  Lookups are identified: every getBrokerForTubRef of a Tub
+   incarnation gets the next number; waitingForBrokers is the list of (number, time it was made), and every answer is
+   recorded with the time and the kind (callback / errback).
    Definitions only; proofs are in ConvergeProofs.v. *)
 From Coq Require Import ZArith List Bool Arith.
 Import ListNotations.
@@ -37,41 +43,63 @@ Record conn := mkconn {
   c_cut : bool                 (* the network dropped it: nothing can be written any more *)
 }.
 
+(* an answered lookup: its number, when it was made, when it was answered, callback (true) or errback (false) *)
+Record fired_rec := mkfired { f_id : nat; f_reg : Z; f_at : Z; f_ok : bool }.
+
 Record tub := mktub {
   t_inc : Z;                   (* incarnation (1, 2, ...; 0 is reserved for "none") *)
   t_broker : option nat;       (* Tub.brokers[peer]: which connection *)
   t_bir : option Z;            (* that Broker's current_slave_IR (master side) *)
   t_bseq : Z;                  (*               current_seqnum *)
+  t_bcreated : Z;              (*               creation_timestamp *)
   t_master : Z;                (* master_table[peer] (0 = absent) *)
   t_slave : option (Z * Z);    (* slave_table[peer] *)
   t_connector : option nat;    (* tubConnectors[peer]: generation of the live TubConnector (active, timer armed) *)
+  t_deadline : Z;              (* when that TubConnector's timer fires (meaningful while t_connector is Some) *)
   t_gen : nat;                 (* next connector generation *)
-  t_waiters : nat;             (* len(waitingForBrokers[peer]) *)
-  t_fired : nat;               (* lookups answered so far (this incarnation) *)
-  t_issued : nat;              (* lookups made so far (this incarnation) *)
+  t_waiters : list (nat * Z);  (* waitingForBrokers[peer], in order: (lookup number, time it was made) *)
+  t_fired : list fired_rec;    (* lookups answered so far (this incarnation), in the order they were answered *)
+  t_issued : nat;              (* lookups made so far (this incarnation) = the next lookup number *)
   t_retry : bool               (* the application's next errback synchronously calls getReference again (instant retry) *)
 }.
 
-Record state := mkstate { tm : tub; ts : tub; conns : nat -> conn; nconn : nat }.
+(* now: virtual time; ho: the master's handle-old-duplicate-connections option (None = off);
+   sdl c: when the negotiation timer of the listening end of connection c fires *)
+Record state := mkstate { tm : tub; ts : tub; conns : nat -> conn; nconn : nat; now : Z; ho : option Z; sdl : nat -> Z }.
 
 Definition dead_conn : conn := mkconn TM 0 ELost ELost [] [] false.
-Definition new_tub (inc : Z) (gen : nat) : tub := mktub inc None None 0 0 None None gen 0 0 0 false.
-Definition init : state := mkstate (new_tub 1 0) (new_tub 1 0) (fun _ => dead_conn) 0.
+Definition new_tub (inc : Z) (gen : nat) : tub := mktub inc None None 0 0 0 None None 0 gen [] [] 0 false.
+Definition init : state := mkstate (new_tub 1 0) (new_tub 1 0) (fun _ => dead_conn) 0 0 None (fun _ => 0%Z).
 
 Definition tubof (x : tubname) (s : state) : tub := match x with TM => tm s | TS => ts s end.
 Definition set_tub (x : tubname) (t : tub) (s : state) : state :=
-  match x with TM => mkstate t (ts s) (conns s) (nconn s) | TS => mkstate (tm s) t (conns s) (nconn s) end.
-Definition set_conns (f : nat -> conn) (s : state) : state := mkstate (tm s) (ts s) f (nconn s).
-Definition upd (f : nat -> conn) (c : nat) (k : conn) : nat -> conn := fun i => if Nat.eqb i c then k else f i.
+  match x with TM => mkstate t (ts s) (conns s) (nconn s) (now s) (ho s) (sdl s)
+             | TS => mkstate (tm s) t (conns s) (nconn s) (now s) (ho s) (sdl s) end.
+Definition set_conns (f : nat -> conn) (s : state) : state := mkstate (tm s) (ts s) f (nconn s) (now s) (ho s) (sdl s).
+Definition set_now (n : Z) (s : state) : state := mkstate (tm s) (ts s) (conns s) (nconn s) n (ho s) (sdl s).
+Definition set_ho (o : option Z) (s : state) : state := mkstate (tm s) (ts s) (conns s) (nconn s) (now s) o (sdl s).
+Definition upd {A} (f : nat -> A) (c : nat) (k : A) : nat -> A := fun i => if Nat.eqb i c then k else f i.
 
 Definition set_broker (b : option nat) (t : tub) : tub :=
-  mktub (t_inc t) b (t_bir t) (t_bseq t) (t_master t) (t_slave t) (t_connector t) (t_gen t) (t_waiters t) (t_fired t) (t_issued t) (t_retry t).
+  mktub (t_inc t) b (t_bir t) (t_bseq t) (t_bcreated t) (t_master t) (t_slave t) (t_connector t) (t_deadline t) (t_gen t)
+        (t_waiters t) (t_fired t) (t_issued t) (t_retry t).
 Definition set_connector (c : option nat) (t : tub) : tub :=
-  mktub (t_inc t) (t_broker t) (t_bir t) (t_bseq t) (t_master t) (t_slave t) c (t_gen t) (t_waiters t) (t_fired t) (t_issued t) (t_retry t).
-(* every waiting Deferred is fired (callback or errback) *)
-Definition fire (t : tub) : tub :=
-  mktub (t_inc t) (t_broker t) (t_bir t) (t_bseq t) (t_master t) (t_slave t) (t_connector t) (t_gen t) 0
-        (t_fired t + t_waiters t) (t_issued t) (t_retry t).
+  mktub (t_inc t) (t_broker t) (t_bir t) (t_bseq t) (t_bcreated t) (t_master t) (t_slave t) c (t_deadline t) (t_gen t)
+        (t_waiters t) (t_fired t) (t_issued t) (t_retry t).
+Definition set_bcreated (n : Z) (t : tub) : tub :=
+  mktub (t_inc t) (t_broker t) (t_bir t) (t_bseq t) n (t_master t) (t_slave t) (t_connector t) (t_deadline t) (t_gen t)
+        (t_waiters t) (t_fired t) (t_issued t) (t_retry t).
+Definition set_slave (r : option (Z * Z)) (t : tub) : tub :=
+  mktub (t_inc t) (t_broker t) (t_bir t) (t_bseq t) (t_bcreated t) (t_master t) r (t_connector t) (t_deadline t) (t_gen t)
+        (t_waiters t) (t_fired t) (t_issued t) (t_retry t).
+(* the master records the connection it accepts: Broker parameters and master_table *)
+Definition set_accept (ir : Z) (seq : Z) (t : tub) : tub :=
+  mktub (t_inc t) (t_broker t) (Some ir) seq (t_bcreated t) seq (t_slave t) (t_connector t) (t_deadline t) (t_gen t)
+        (t_waiters t) (t_fired t) (t_issued t) (t_retry t).
+(* every waiting Deferred is fired at time n (callback: ok = true, errback: ok = false), in list order *)
+Definition fire (n : Z) (ok : bool) (t : tub) : tub :=
+  mktub (t_inc t) (t_broker t) (t_bir t) (t_bseq t) (t_bcreated t) (t_master t) (t_slave t) (t_connector t) (t_deadline t) (t_gen t)
+        [] (t_fired t ++ map (fun w => mkfired (fst w) (snd w) n ok) (t_waiters t)) (t_issued t) (t_retry t).
 
 (* ---- one end *)
 Definition cend (x : tubname) (k : conn) : est := match x with TM => c_m k | TS => c_s k end.
@@ -113,55 +141,56 @@ Definition is_pending (x : tubname) (g : nat) (k : conn) : bool :=
 Definition any_pending (x : tubname) (g : nat) (s : state) : bool :=
   existsb (fun i => is_pending x g (conns s i)) (seq 0 (nconn s)).
 
-(* Tub.getBrokerForTubRef, on the Tub's own state *)
-Definition getref_tub (t : tub) : tub :=
+(* Tub.getBrokerForTubRef at time n, on the Tub's own state: the lookup gets the next number *)
+Definition getref_tub (n : Z) (t : tub) : tub :=
+  let w := t_issued t in
   match t_broker t with
-  | Some _ => mktub (t_inc t) (t_broker t) (t_bir t) (t_bseq t) (t_master t) (t_slave t) (t_connector t)
-                    (t_gen t) (t_waiters t) (S (t_fired t)) (S (t_issued t)) (t_retry t)
+  | Some _ => mktub (t_inc t) (t_broker t) (t_bir t) (t_bseq t) (t_bcreated t) (t_master t) (t_slave t) (t_connector t)
+                    (t_deadline t) (t_gen t) (t_waiters t) (t_fired t ++ [mkfired w n n true]) (S w) (t_retry t)
   | None =>
     match t_connector t with
-    | Some _ => mktub (t_inc t) None (t_bir t) (t_bseq t) (t_master t) (t_slave t) (t_connector t)
-                      (t_gen t) (S (t_waiters t)) (t_fired t) (S (t_issued t)) (t_retry t)
-    | None => mktub (t_inc t) None (t_bir t) (t_bseq t) (t_master t) (t_slave t) (Some (t_gen t))
-                    (S (t_gen t)) (S (t_waiters t)) (t_fired t) (S (t_issued t)) (t_retry t)
+    | Some _ => mktub (t_inc t) None (t_bir t) (t_bseq t) (t_bcreated t) (t_master t) (t_slave t) (t_connector t)
+                      (t_deadline t) (t_gen t) (t_waiters t ++ [(w, n)]) (t_fired t) (S w) (t_retry t)
+    | None => mktub (t_inc t) None (t_bir t) (t_bseq t) (t_bcreated t) (t_master t) (t_slave t) (Some (t_gen t))
+                    (n + CONNECTION_TIMEOUT)%Z (S (t_gen t)) (t_waiters t ++ [(w, n)]) (t_fired t) (S w) (t_retry t)
     end
   end.
 
+Definition set_retry (b : bool) (t : tub) : tub :=
+  mktub (t_inc t) (t_broker t) (t_bir t) (t_bseq t) (t_bcreated t) (t_master t) (t_slave t) (t_connector t) (t_deadline t) (t_gen t)
+        (t_waiters t) (t_fired t) (t_issued t) b.
+
 (* every waiter is errbacked; application errbacks run synchronously: if armed, the first one calls
    getReference for the same Tub again, from inside the errback *)
-Definition errback_all (t : tub) : tub :=
-  let t' := fire t in
-  if t_retry t && negb (Nat.eqb (t_waiters t) 0)
-  then getref_tub (mktub (t_inc t') (t_broker t') (t_bir t') (t_bseq t') (t_master t') (t_slave t') (t_connector t')
-                         (t_gen t') (t_waiters t') (t_fired t') (t_issued t') false)
+Definition errback_all (n : Z) (t : tub) : tub :=
+  let t' := fire n false t in
+  if t_retry t && negb (Nat.eqb (List.length (t_waiters t)) 0)
+  then getref_tub n (set_retry false t')
   else t'.
 
 (* TubConnector.failed -> Tub.connectionFailed: forget the connector; unless an inbound connection made it,
    errback everyone waiting.  The order of the two effects is read from the source. *)
-Definition connector_gone (t : tub) : tub :=
+Definition connector_gone (n : Z) (t : tub) : tub :=
   if connection_failed_forgets_first then
     let t1 := set_connector None t in
-    match t_broker t1 with Some _ => t1 | None => errback_all t1 end
+    match t_broker t1 with Some _ => t1 | None => errback_all n t1 end
   else
-    set_connector None (match t_broker t with Some _ => t | None => errback_all t end).
+    set_connector None (match t_broker t with Some _ => t | None => errback_all n t end).
 
 (* connectorNegotiationFailed (after the negotiation was popped): checkForFailure *)
 Definition connector_failed (x : tubname) (g : nat) (s : state) : state :=
   let t := tubof x s in
   match t_connector t with
-  | Some g' => if Nat.eqb g g' && negb (any_pending x g s) then set_tub x (connector_gone t) s else s
+  | Some g' => if Nat.eqb g g' && negb (any_pending x g s) then set_tub x (connector_gone (now s) t) s else s
   | None => s
   end.
 
 (* Tub.getBrokerForTubRef at x *)
-Definition do_getref (x : tubname) (s : state) : state := set_tub x (getref_tub (tubof x s)) s.
-
-Definition set_retry (b : bool) (t : tub) : tub :=
-  mktub (t_inc t) (t_broker t) (t_bir t) (t_bseq t) (t_master t) (t_slave t) (t_connector t) (t_gen t) (t_waiters t)
-        (t_fired t) (t_issued t) b.
+Definition do_getref (x : tubname) (s : state) : state := set_tub x (getref_tub (now s) (tubof x s)) s.
 
 (* one location hint of x's live connector: TCP connect + GET + 101; both hellos are then in flight.
-   Only the client's hello carries last-connection (initClient), default ("none", 0). *)
+   Only the client's hello carries last-connection (initClient), default ("none", 0).
+   connectionMadeServer arms the listening end's negotiation timer. *)
 Definition do_dial (x : tubname) (s : state) : state :=
   match t_connector (tubof x s) with
   | None => s
@@ -170,7 +199,8 @@ Definition do_dial (x : tubname) (s : state) : state :=
                 | TS => Some (match t_slave (ts s) with Some r => r | None => (IR_NONE, 0%Z) end)
                 | TM => None end in
     let k := mkconn x g ENeg ENeg [Hello (t_inc (tm s)) None] [Hello (t_inc (ts s)) last] false in
-    mkstate (tm s) (ts s) (upd (conns s) (nconn s) k) (S (nconn s))
+    mkstate (tm s) (ts s) (upd (conns s) (nconn s) k) (S (nconn s)) (now s) (ho s)
+            (upd (sdl s) (nconn s) (now s + SERVER_TIMEOUT)%Z)
   end.
 
 (* Negotiation.switchToBanana at x on connection c (x's end already EBrk):
@@ -182,7 +212,7 @@ Definition attach (x : tubname) (c : nat) (s : state) : state :=
   let s1 := if tub_eqb (c_client k) x then map_conns (cancel x (c_gen k)) s
             else match t_connector t with Some g' => map_conns (cancel x g') s | None => s end in
   let t1 := tubof x s1 in
-  set_tub x (fire (set_broker (Some c) (set_connector None t1))) s1.
+  set_tub x (fire (now s) true (set_bcreated (now s) (set_broker (Some c) (set_connector None t1)))) s1.
 
 (* Broker.shutdown of x's current broker (if any): detached at once, loseConnection *)
 Definition drop_existing (x : tubname) (s : state) : state :=
@@ -212,9 +242,7 @@ Definition master_accept (c : nat) (inc : Z) (s : state) : state :=
   let seq := (t_master t + seqnum_step)%Z in
   let k := conns s c in
   let k1 := set_end TM EBrk (enq TM (Decision (t_inc t) seq) k) in
-  let t1 := mktub (t_inc t) (t_broker t) (Some inc) seq seq (t_slave t) (t_connector t) (t_gen t) (t_waiters t)
-                  (t_fired t) (t_issued t) (t_retry t) in
-  attach TM c (mkstate t1 (ts s) (upd (conns s) c k1) (nconn s)).
+  attach TM c (set_tub TM (set_accept inc seq t) (set_conns (upd (conns s) c k1) s)).
 
 (* the master refuses: error block, hang up *)
 Definition master_reject (c : nat) (s : state) : state :=
@@ -235,7 +263,8 @@ Definition deliver_m (c : nat) (s : state) : state :=
         match t_broker (tm s0) with
         | None => master_accept c inc s0
         | Some _ =>
-          match compare_offer (Some inc) last (t_bir (tm s0)) (t_bseq (tm s0)) (t_inc (tm s0)) None 0 with
+          match compare_offer (Some inc) last (t_bir (tm s0)) (t_bseq (tm s0)) (t_inc (tm s0)) (ho s0)
+                              (now s0 - t_bcreated (tm s0)) with
           | Ok true => master_accept c inc (drop_existing TM s0)
           | _ => master_reject c s0
           end
@@ -269,9 +298,7 @@ Definition deliver_s (c : nat) (s : state) : state :=
         let s1 := drop_existing TS s in
         let t := ts s1 in
         let rec_ := if slave_table_recorded_always || tub_eqb (c_client k) TS then Some (inc, seq) else t_slave t in
-        let t1 := mktub (t_inc t) (t_broker t) (t_bir t) (t_bseq t) (t_master t) rec_ (t_connector t)
-                        (t_gen t) (t_waiters t) (t_fired t) (t_issued t) (t_retry t) in
-        attach TS c (mkstate (tm s1) t1 (upd (conns s1) c (set_end TS EBrk (pop_ms (conns s1 c)))) (nconn s1))
+        attach TS c (set_tub TS (set_slave rec_ t) (set_conns (upd (conns s1) c (set_end TS EBrk (pop_ms (conns s1 c)))) s1))
       | ENeg => set_conns (upd (conns s) c (lose TS (pop_ms k))) s
       | _ => s0
       end
@@ -307,13 +334,35 @@ Definition do_restart (x : tubname) (s : state) : state :=
 Definition do_timeout (x : tubname) (s : state) : state :=
   match t_connector (tubof x s) with
   | None => s
-  | Some g => let s1 := map_conns (cancel x g) s in set_tub x (connector_gone (tubof x s1)) s1
+  | Some g => let s1 := map_conns (cancel x g) s in set_tub x (connector_gone (now s1) (tubof x s1)) s1
   end.
+
+(* ---- virtual time *)
+Definition server_of (k : conn) : tubname := match c_client k with TM => TS | TS => TM end.
+(* the listening end's negotiation timer is armed while that end negotiates (stopped by switchToBanana / negotiationFailed) *)
+Definition srv_armed (k : conn) : bool := negotiating (cend (server_of k) k).
+(* Negotiation.negotiationTimedOut: transport.loseConnection() *)
+Definition srv_expire (n d : Z) (k : conn) : conn :=
+  if srv_armed k && (d <=? n)%Z then lose (server_of k) k else k.
+Definition expired (x : tubname) (s : state) : bool :=
+  match t_connector (tubof x s) with Some _ => (t_deadline (tubof x s) <=? now s)%Z | None => false end.
+(* time does not pass beyond an armed timer without that timer firing: the earliest armed deadline not after n0 *)
+Definition next_time (s : state) (n0 : Z) : Z :=
+  let n1 := match t_connector (tm s) with Some _ => Z.min n0 (t_deadline (tm s)) | None => n0 end in
+  let n2 := match t_connector (ts s) with Some _ => Z.min n1 (t_deadline (ts s)) | None => n1 end in
+  fold_left (fun n i => if srv_armed (conns s i) && (now s <? sdl s i)%Z then Z.min n (sdl s i) else n) (seq 0 (nconn s)) n2.
+Definition do_advance (dt : Z) (s : state) : state :=
+  let n := Z.max (now s) (next_time s (now s + Z.max dt 0)) in
+  let s1 := set_now n s in
+  let s2 := set_conns (fun i => srv_expire n (sdl s i) (conns s i)) s1 in
+  let s3 := if expired TM s2 then do_timeout TM s2 else s2 in
+  if expired TS s3 then do_timeout TS s3 else s3.
 
 Inductive op :=
 | GetRef (x : tubname) | DialHint (x : tubname)
 | Deliver (c : nat) (to : tubname) | CloseSeen (c : nat) (x : tubname) | Cut (c : nat)
-| Restart (x : tubname) | Timeout (x : tubname) | ArmRetry (x : tubname).
+| Restart (x : tubname) | Timeout (x : tubname) | ArmRetry (x : tubname)
+| Advance (dt : Z) | SetHandleOld (o : option Z).
 
 Definition step (s : state) (o : op) : state :=
   match o with
@@ -326,6 +375,8 @@ Definition step (s : state) (o : op) : state :=
   | Restart x => do_restart x s
   | Timeout x => do_timeout x s
   | ArmRetry x => set_tub x (set_retry true (tubof x s)) s
+  | Advance dt => do_advance dt s
+  | SetHandleOld o => set_ho o s
   end.
 
 Definition run (ops : list op) : state := fold_left step ops init.
@@ -343,15 +394,19 @@ Definition est_code (e : est) : Z :=
   match e with ENeg => 0 | EDec => 1 | EBrk => 2 | ECloNeg => 3 | ECloBrk => 4 | ELost => 5 end%Z.
 Definition msg_code (m : msg) : Z := match m with Hello _ _ => 1 | Decision _ _ => 2 | ErrorBlk => 3 | Fin => 4 end%Z.
 Definition optnat_code (o : option nat) : Z := match o with Some n => Z.of_nat n | None => (-1)%Z end.
+Definition fired_obs (r : fired_rec) : list Z := [Z.of_nat (f_id r); f_reg r; f_at r; (if f_ok r then 1 else 0)%Z].
 Definition tub_obs (t : tub) : list Z :=
   [optnat_code (t_broker t); t_master t;
    match t_slave t with Some (i, _) => i | None => (-1)%Z end; match t_slave t with Some (_, q) => q | None => (-1)%Z end;
-   (match t_connector t with Some _ => 1 | None => 0 end)%Z; Z.of_nat (t_waiters t); Z.of_nat (t_fired t);
-   (if t_retry t then 1 else 0)%Z].
+   (match t_connector t with Some _ => 1 | None => 0 end)%Z;
+   (match t_connector t with Some _ => t_deadline t | None => (-1)%Z end);
+   (match t_broker t with Some _ => t_bcreated t | None => (-1)%Z end);
+   (if t_retry t then 1 else 0)%Z]
+  ++ flat_map (fun w => [Z.of_nat (fst w); snd w]) (t_waiters t) ++ [(-7)%Z] ++ flat_map fired_obs (t_fired t).
 Definition conn_obs (k : conn) : list Z :=
   [(match c_client k with TM => 0 | TS => 1 end)%Z; est_code (c_m k); est_code (c_s k); (if c_cut k then 1 else 0)%Z]
   ++ map msg_code (c_qms k) ++ [9%Z] ++ map msg_code (c_qsm k).
 Definition obs (s : state) : list (list Z) :=
-  tub_obs (tm s) :: tub_obs (ts s) :: map (fun i => conn_obs (conns s i)) (seq 0 (nconn s)).
+  [now s] :: tub_obs (tm s) :: tub_obs (ts s) :: map (fun i => conn_obs (conns s i)) (seq 0 (nconn s)).
 Fixpoint trace (s : state) (ops : list op) : list (list (list Z)) :=
   match ops with [] => [] | o :: r => let s' := step s o in obs s' :: trace s' r end.
